@@ -183,6 +183,7 @@ func lenDerived(f *core.Fn, e ast.Expr, depth int) bool {
 }
 
 func runC17(c *core.Ctx) {
+	boundTestSeesTheWideSum(c, "bound-test-sees-the-wide-sum", "protocols/bgp/packet", "protocols/bgp/types")
 	handWrittenCopiesAreComplete(c, "hand-written-copy-names-every-field")
 	capabilityStores(c)
 	p := c.P
